@@ -33,3 +33,8 @@ nontrivial = B.nontrivial
 histogram = B.histogram
 pretty = B.pretty
 neighbours = B.neighbours
+
+
+def post(tier, seed):
+    from .. import concprop
+    return concprop.stage(PID, "C10", {4}, tier, seed, ['c10_exclusive_all_schedules'])
